@@ -485,6 +485,10 @@ mod kani_c19 {
         kani::assume(inv(&s, now)); // tag: invariant
         let addr = any_opt(|| { let pl: u8 = kani::any(); kani::assume(pl <= 32); Ipv4Cidr::new(any_v4(), pl) }); // tag: range
         let mut cx = Context::kani_ctx_addr(now, kani::any(), addr.map(IpCidr::Ipv4));
+        // a pending query always points at an existing, specified server (dispatch fails the query in the same call in which it runs out of servers)
+        { let ns = s.servers.len();
+          let ok = |q: &Option<DnsQuery>| match q { Some(DnsQuery { state: State::Pending(p) }) => { let n = if matches!(p.mdns, MulticastDns::Disabled) { ns } else { 1 }; p.server_idx < n && (!matches!(p.mdns, MulticastDns::Disabled) || !s.servers[p.server_idx].is_unspecified()) }, _ => true };
+          kani::assume(ok(&s.queries[0]) && ok(&s.queries[1])); } // tag: pre
         let p = s.poll_at(&cx);
         let later = match p { PollAt::Now => false, PollAt::Time(t) => t > now, PollAt::Ingress => true };
         let pre = [snap(&s, 0), snap(&s, 1)];
